@@ -82,3 +82,16 @@
 (define-fun onSched ((b Int)) Bool
   (or (= b 16000000) (= b 32000000) (= b 64000000) (= b 128000000) (= b 256000000) (= b 512000000) (= b 1024000000) (= b 2048000000)
       (= b 4096000000) (= b 8192000000) (= b 13192000000) (= b 18192000000) (= b 23192000000) (= b 28192000000) (= b 33192000000)))
+
+;;; block msum
+; msum(w, s): the sum of w[k] over the (finite) set { k | s[k] = 1 }.  Sets are 0/1 arrays: map domains and the
+; visited sets of map-range loops. Defining properties: empty set, adding one element, and extensionality (equal sets,
+; summands equal on the set).
+(declare-fun msum ((Array Int Int) (Array Int Int)) Int)
+(assert (forall ((w (Array Int Int))) (! (= (msum w ((as const (Array Int Int)) 0)) 0) :pattern ((msum w ((as const (Array Int Int)) 0))))))
+(assert (forall ((w (Array Int Int)) (s (Array Int Int)) (k Int))
+  (! (=> (not (= (select s k) 1)) (= (msum w (store s k 1)) (+ (msum w s) (select w k)))) :pattern ((msum w (store s k 1))))))
+(assert (forall ((w (Array Int Int)) (w2 (Array Int Int)) (s (Array Int Int)) (s2 (Array Int Int)))
+  (! (=> (forall ((k Int)) (and (= (= (select s k) 1) (= (select s2 k) 1)) (=> (= (select s k) 1) (= (select w k) (select w2 k)))))
+         (= (msum w s) (msum w2 s2)))
+     :pattern ((msum w s) (msum w2 s2)))))
